@@ -7,7 +7,7 @@ from .. import cases, monitors, oracles
 from . import _align_common as ac
 
 TITLE = "Gamma is 1 - observed/expected over the requested chance samples"
-DECIDING = ["M-GAMMA", "M-GAMMA-COUNT", "M-GAMMA-SAMPLE", "M-GAMMA-RECOMPUTE", "M-GAMMA-IDENTICAL"]
+DECIDING = ["M-GAMMA", "M-GAMMA-COUNT", "M-GAMMA-SAMPLE", "M-GAMMA-RECOMPUTE", "M-GAMMA-IDENTICAL", "M-GAMMA-SESSION"]
 LEVEL = "exploration"
 RULE = ("seeded random small continua (2-4 annotators, labelled) x n_samples 1..40 x precision (none / numeric chosen "
         "so that N_required falls below, on and above n_samples / named levels when affordable) x sampler "
@@ -15,7 +15,8 @@ RULE = ("seeded random small continua (2-4 annotators, labelled) x n_samples 1..
         "proxy around the sampler records a content snapshot of every sample handed out; the post-condition M-GAMMA "
         "checks observed disorder, number of chance alignments, draws == alignments kept, alignment i built on the "
         "i-th sample drawn (content), samples valid, each chance alignment recomputed in the "
-        "same mode on its own sample, mean, gamma, gamma <= 1; plus continua of identical annotators (gamma == 1). "
+        "same mode on its own sample, mean, gamma, gamma <= 1; plus continua of identical annotators (gamma == 1); plus sessions in which ONE sampler object and one "
+        "continuum object serve 2-3 computations with different ground-truth subsets, modes and sample counts. "
         "non-trivial = every case (>= 1 sample); distinct by SHA-1 of the case")
 ASSUMPTIONS = [
     "N_required is recomputed in float64 from the first n_samples chance disorders; any count between the ceilings of "
@@ -220,7 +221,37 @@ def run_gamma(case, continuum, dissim, precision):
     return res, sampler
 
 
+def check_session(ctx, case):
+    """ONE sampler object and one continuum object reused for several gamma computations with different ground-truth
+    subsets / modes: every computation must obey the statement on its own."""
+    _, pool = ac.setup(ctx)
+    cspec = case["continuum"]
+    dissim = pool.get(case["dissim"])
+    continuum = cases.build_continuum(cspec)
+    sampler = counting_sampler(case["sampler"])
+    for k, call in enumerate(case["session"]):
+        sub = dict(case, **call)
+        gt = call.get("ground_truth") or sorted(cspec["ann"].keys())
+        sampler.handed = []
+        ctx.count("M-GAMMA-SESSION")
+        try:
+            np.random.seed(call["np_seed"])
+            res = continuum.compute_gamma(dissim, n_samples=call["n_samples"], precision_level=call["precision"],
+                                          ground_truth_annotators=None if call.get("ground_truth") is None else list(call["ground_truth"]),
+                                          sampler=sampler, fast=call["mode"] == "fast", soft=call["mode"] == "soft")
+        except Exception as e:
+            ctx.fail_exc(f"session:compute_gamma-raises:{type(e).__name__}", e, monitor="M-GAMMA")
+            return
+        before = dict(ctx.fail_counts)
+        check_gamma(ctx, sub, continuum, dissim, sampler, res, gt)
+        if dict(ctx.fail_counts) != before:
+            ctx.observe("session_failure_at_call", k)
+            return
+
+
 def check_case(ctx, case):
+    if "session" in case:
+        return check_session(ctx, case)
     _, pool = ac.setup(ctx)
     cspec, dspec = case["continuum"], case["dissim"]
     dissim = pool.get(dspec)
@@ -293,6 +324,14 @@ def gen_case(ctx, dspecs):
             "np_seed": rng.randrange(2 ** 31), "identical": identical}
     if target:
         case["target_N"] = target
+    if n >= 3 and rng.random() < 0.35:
+        # session: the same sampler and continuum objects serve several computations
+        calls = []
+        for _ in range(rng.randint(2, 3)):
+            calls.append({"ground_truth": rng.choice([None, sorted(rng.sample(names, rng.randint(2, n)))]),
+                          "n_samples": rng.choice([1, 2, 4, 6]), "precision": rng.choice([None, None, 0.5]),
+                          "mode": rng.choice(["exact", "fast", "soft"]), "np_seed": rng.randrange(2 ** 31)})
+        case = {"continuum": cspec, "dissim": dspec, "sampler": case["sampler"], "session": calls, "identical": identical}
     return case
 
 
@@ -307,10 +346,13 @@ def run(ctx):
             break
         case = gen_case(ctx, dspecs)
         ctx.begin_case(case)
-        ctx.observe("mode", case["mode"])
         ctx.observe("sampler", case["sampler"])
-        ctx.observe("n_samples", case["n_samples"])
-        ctx.observe("precision", "auto" if case["precision"] == "auto" else str(case["precision"]))
-        ctx.observe("ground_truth_subset", case["ground_truth"] is not None)
+        if "session" in case:
+            ctx.observe("mode", "session")
+        else:
+            ctx.observe("mode", case["mode"])
+            ctx.observe("n_samples", case["n_samples"])
+            ctx.observe("precision", "auto" if case["precision"] == "auto" else str(case["precision"]))
+            ctx.observe("ground_truth_subset", case["ground_truth"] is not None)
         ctx.observe("annotators", len(case["continuum"]["ann"]))
         check_case(ctx, case)
